@@ -5,7 +5,7 @@
 (* canonicalisation (C16).  Inputs are lattice integers m with a common    *)
 (* scale 2^s; every exact value is computed here with integers.            *)
 (***************************************************************************)
-EXTENDS Geometry, Topology, Measures, TLC
+EXTENDS Tolerance, Topology, Measures, TLC
 
 Range(s) == {s[i] : i \in DOMAIN s}
 \* The stateless families judge every event on its own, so a failed conjunct does not have to stop the
@@ -14,45 +14,9 @@ Range(s) == {s[i] : i \in DOMAIN s}
 Chk(name, cond) == IF cond THEN TRUE ELSE PrintT(<<"SOFT-FAIL", TLCGet(8), name>>)
 
 ---------------------------------------------------------------------------
-\* floor(log2 x) for x >= 1, ceil(log2 x) for x >= 1
-RECURSIVE FLog2(_)
-FLog2(x) == IF x <= 1 THEN 0 ELSE 1 + FLog2(x \div 2)
-CLog2(x) == IF x <= 1 THEN 0 ELSE FLog2(x - 1) + 1
-Max(a, b) == IF a > b THEN a ELSE b
-
 \* parity sign of a permutation given as a tuple p of 1..n
 PermSign(p) ==
   IF Cardinality({x \in (DOMAIN p) \X (DOMAIN p) : x[1] < x[2] /\ p[x[1]] > p[x[2]]}) % 2 = 0 THEN 1 ELSE -1
-
-\* max absolute row sum of the coordinates (the "infinity norm" the adaptive tolerance uses)
-RowSum(ps) == LET rs == {Sum([j \in DOMAIN ps[i] |-> Abs(ps[i][j])]) : i \in DOMAIN ps}
-              IN  CHOOSE x \in rs : \A y \in rs : y <= x
-RowSum2(ps) == LET rs == {Norm2(ps[i]) : i \in DOMAIN ps}
-               IN  CHOOSE x \in rs : \A y \in rs : y <= x
-
-\* The documented tolerance is tol = 1e-15 + 1e-12 * ||A||_inf.  With 1e-15 < 2^-49 and
-\* 1e-12 < 2^-39, a determinant det * 2^(s*k) is DECIDABLE (separated from zero by more than the
-\* tolerance, with a factor-8 safety margin, and far from overflow / underflow) when:
-InRange(s, D) == s * (D + 2) <= 600 /\ s * (D + 2) >= -600
-DecOrient(det, s, D, ps) ==
-  /\ det # 0 /\ InRange(s, D)
-  /\ FLog2(Abs(det)) + s * D >= Max(-49, -39 + CLog2(RowSum(ps) + 1) + s) + 3
-DecSphere(lifted, s, D, ps) ==
-  /\ lifted # 0 /\ InRange(s, D)
-  /\ FLog2(Abs(lifted)) + s * (D + 2) >=
-       Max(-49, Max(-39 + CLog2(RowSum(ps) + 1) + s, -39 + CLog2(RowSum2(ps) + 1) + 2 * s)) + 3
-
-\* "...returns the degenerate/boundary value when the exact determinant is zero AND the
-\* floating-point rounding bound of the evaluation lies below that tolerance": the rounding bound of
-\* an n x n determinant with entries of magnitude M is about 2^-50 * M^n (LU with divisions is not
-\* exact even on exact inputs); it must stay below the tolerance with margin.
-ZeroOrientOK(s, D, ps) ==
-  /\ InRange(s, D)
-  /\ -50 + D * (CLog2(RowSum(ps) + 1) + s) + 3 <= Max(-49, -39 + FLog2(RowSum(ps) + 1) + s)
-ZeroSphereOK(s, D, ps) ==
-  /\ InRange(s, D)
-  /\ -50 + D * (CLog2(RowSum(ps) + 1) + s) + CLog2(RowSum2(ps) + 1) + 2 * s + 3
-       <= Max(-49, Max(-39 + FLog2(RowSum(ps) + 1) + s, -39 + FLog2(RowSum2(ps) + 1) + 2 * s))
 
 Strict(x) == x \in {-1, 1}
 
